@@ -245,7 +245,7 @@ func judgePassMismatches(env *Env, res *Result, cases []CorrCase, outs []string)
 	}
 }
 
-var cmdWords = []string{"ls", "cat", "nc.traditional", "apt-get", "python3", "time", "a b", "w@", "w~", "w\\@", "w\\~", "w\\\\@", "@", "~", "\\@", "'lit.eral", "'", "x", "", "g++", "7z", "c99", "a  b", "é", "-", ".", "a\\", "a@b", "ab@@", "foo\\", "\\", "'x@"}
+var cmdWords = []string{"''x", "''", "'''\\s*sh", "ls", "cat", "nc.traditional", "apt-get", "python3", "time", "a b", "w@", "w~", "w\\@", "w\\~", "w\\\\@", "@", "~", "\\@", "'lit.eral", "'", "x", "", "g++", "7z", "c99", "a  b", "é", "-", ".", "a\\", "a@b", "ab@@", "foo\\", "\\", "'x@"}
 var evasionPatterns = []string{"", "[^ a-z0-9]*", "[\\x5c'\\\"]*", "_av-u_", "[\"\\^]*", "(?:\\s|<|>).*", "[^a-z]?", "a|b", "(?:x|y)", " [\\s,;]* ", "\\b", "\t_s_\n"}
 
 func genCmdWord(r *Rng) string {
@@ -270,6 +270,11 @@ func suiteCmdlineFn(env *Env, res *Result) {
 		w := genCmdWord(r)
 		ev, sf, ns := r.Pick(evasionPatterns), r.Pick(evasionPatterns), r.Pick(evasionPatterns)
 		out := processors.VerifRegexpStr(ev, sf, ns, w)
+		// C04 on the function itself: a leading ' passes the rest of the line through untouched
+		if strings.HasPrefix(w, "'") && out != w[1:] {
+			res.addFailure(Failure{Kind: "C04", Shape: "c04_verbatim_line_changed", Input: map[string]interface{}{"word": w, "evasion": ev},
+				Detail: fmt.Sprintf("regexpStr(%q) = %q, the property asks for %q", w, out, w[1:])})
+		}
 		cls := ""
 		if out != w {
 			cls = "regexp_str"
